@@ -11,38 +11,7 @@
    replaced by a SolutionArray attribute. *)
 From AK Require Import Base.Prelude Bytes.Text Bytes.FabHeader Bytes.BinFile
   Reader.Select Reader.BoxRead Reader.Level Plotfile.TextHeader Taste.Taste Writers.Colander.
-
-(* ---- the order of float64 values on their bit patterns (NaN excluded) ---- *)
-Fixpoint le_bits (w : bytes) : Z :=
-  match w with
-  | [] => 0
-  | c :: w' => code c + 256 * le_bits w'
-  end.
-
-Definition word_key (w : bytes) : Z :=
-  let b := le_bits w in
-  if b <? 9223372036854775808 then b else 9223372036854775808 - b.
-
-Definition word_leb (a b : bytes) : bool := word_key a <=? word_key b.
-
-Definition min_word (l : list bytes) (d : bytes) : bytes :=
-  fold_left (fun m w => if word_leb m w then m else w) l d.
-Definition max_word (l : list bytes) (d : bytes) : bytes :=
-  fold_left (fun m w => if word_leb m w then w else m) l d.
-
-(* the 8-byte words of a component *)
-Fixpoint words (fuel : nat) (b : bytes) : list bytes :=
-  match fuel with
-  | O => []
-  | S fuel' => match b with
-               | [] => []
-               | _ => firstn 8 b :: words fuel' (skipn 8 b)
-               end
-  end.
-Definition words_of (b : bytes) : list bytes := words (length b) b.
-
-Definition comp_min (c : bytes) : bytes := match words_of c with w :: l => min_word l w | [] => [] end.
-Definition comp_max (c : bytes) : bytes := match words_of c with w :: l => max_word l w | [] => [] end.
+From AK Require Export Bytes.Word.
 
 (* a min/max value is printed by str(np.float64); the model prints the bit
    pattern ("w:" + 16 hex digits), compared by value in the correspondence *)
